@@ -31,8 +31,9 @@ P = 1021
 def draw_case(data, tier):
     d = data.draw(st.sampled_from([2, 2, 3]), label="d")
     shape, _ = gen.draw_shape(data, d, 1, 3 if d == 2 else 2, classes=("cubic", "free"))
-    n = data.draw(st.integers(1, 5), label="n")
-    past = data.draw(st.integers(1, 4), label="past")
+    long_run = data.draw(st.integers(0, 7), label="long_run") == 0
+    n = data.draw(st.integers(6, 14), label="n_long") if long_run else data.draw(st.integers(1, 5), label="n")
+    past = data.draw(st.integers(1, 6 if long_run else 4), label="past")
     sig = gen.draw_signature(data, d, kmax=1, min_types=1, max_types=4, cmax=3)
     entries = []
     have_dyn = False
